@@ -43,8 +43,11 @@ type Case struct {
 	HandlerLogs bool `json:"handler_logs,omitempty"`
 	// RelevelAt/RelevelTo: before event RelevelAt (>0) the Level of every FilteredLevelWriter is set
 	// to RelevelTo (an application turning verbosity up or down at run time): the fan-out follows
-	RelevelAt int `json:"relevel_at,omitempty"`
-	RelevelTo int `json:"relevel_to,omitempty"`
+	// NilHandler: the program has set zerolog.ErrorHandler = nil (the documented default: failures
+	// are then printed to stderr): the logging call still returns normally
+	NilHandler bool `json:"nil_error_handler,omitempty"`
+	RelevelAt  int  `json:"relevel_at,omitempty"`
+	RelevelTo  int  `json:"relevel_to,omitempty"`
 }
 
 var builtFilters []*zerolog.FilteredLevelWriter
@@ -161,6 +164,14 @@ func run(c *Case) (msg string, nontrivial bool) {
 		}
 	}
 	defer func() { zerolog.ErrorHandler = old }()
+	if c.NilHandler {
+		zerolog.ErrorHandler = nil
+		if null, err := os.OpenFile(os.DevNull, os.O_WRONLY, 0); err == nil {
+			oldErr := os.Stderr
+			os.Stderr = null
+			defer func() { os.Stderr = oldErr; null.Close() }()
+		}
+	}
 	var l zerolog.Logger
 	if c.Single {
 		l = zerolog.New(ws[0])
@@ -256,6 +267,9 @@ func run(c *Case) (msg string, nontrivial bool) {
 				return fmt.Sprintf("line %d: Write returned error %v, want %v (the first failing destination)", ei, directErr, firstErr), nontrivial
 			}
 			continue
+		}
+		if c.NilHandler {
+			continue // nothing to count; returning normally was checked above
 		}
 		if firstErr == nil && len(handled) != 0 {
 			return fmt.Sprintf("event %d: ErrorHandler called %d times (%v) although no destination failed", ei, len(handled), handled), nontrivial
@@ -413,6 +427,7 @@ func TestRapid(t *testing.T) {
 			c.Direct = true
 		}
 		c.HandlerLogs = !c.Direct && rapid.IntRange(0, 3).Draw(rt, "handlerlogs") == 0
+		c.NilHandler = !c.Direct && !c.HandlerLogs && rapid.IntRange(0, 5).Draw(rt, "nilhandler") == 0
 		if ne >= 2 && rapid.IntRange(0, 3).Draw(rt, "relevel") == 0 {
 			c.RelevelAt = rapid.IntRange(1, ne-1).Draw(rt, "relevelat")
 			c.RelevelTo = rapid.SampledFrom([]int{-1, 0, 2, 3, 7}).Draw(rt, "relevelto")
